@@ -660,6 +660,7 @@ func (f *file) Symbols(r *regexp.Regexp, addr uint64) ([]*plugin.Sym, error) {
 // faster than fileAddr2Line.
 type fileNM struct {
 	file
+	mu           sync.Mutex // Protects addr2linernm, which is created on first use.
 	addr2linernm *addr2LinerNM
 }
 
@@ -668,6 +669,18 @@ func (f *fileNM) SourceLine(addr uint64) ([]plugin.Frame, error) {
 	if f.baseErr != nil {
 		return nil, f.baseErr
 	}
+	addr2liner, err := f.nmLiner()
+	if err != nil {
+		return nil, err
+	}
+	return addr2liner.addrInfo(addr)
+}
+
+// nmLiner returns the addr2LinerNM for the file, creating it on first use.
+// It must be called after the base has been computed.
+func (f *fileNM) nmLiner() (*addr2LinerNM, error) {
+	f.mu.Lock()
+	defer f.mu.Unlock()
 	if f.addr2linernm == nil {
 		addr2liner, err := newAddr2LinerNM(f.b.nm, f.name, f.base)
 		if err != nil {
@@ -675,7 +688,7 @@ func (f *fileNM) SourceLine(addr uint64) ([]plugin.Frame, error) {
 		}
 		f.addr2linernm = addr2liner
 	}
-	return f.addr2linernm.addrInfo(addr)
+	return f.addr2linernm, nil
 }
 
 // fileAddr2Line implements the binutils.ObjFile interface, using
